@@ -46,8 +46,9 @@ import (
 // C is a matrix of size n×ncc whose elements are stored in c. The elements
 // of c are modified to contain Qᵀ * C on exit. C is not used if ncc == 0.
 //
-// work contains temporary storage and must have length at least 4*(n-1). Dbdsqr
-// will panic if there is insufficient working memory.
+// work contains temporary storage. It must have length at least 4*n if
+// ncvt == nru == ncc == 0, and at least 4*(n-1) otherwise. Dbdsqr will panic if
+// there is insufficient working memory.
 //
 // Dbdsqr returns whether the decomposition was successful.
 //
@@ -92,7 +93,12 @@ func (impl Implementation) Dbdsqr(uplo blas.Uplo, n, ncvt, nru, ncc int, d, e, v
 	if len(e) < n-1 {
 		panic(shortE)
 	}
-	if len(work) < 4*(n-1) {
+	minwork := 4 * (n - 1)
+	if ncvt == 0 && nru == 0 && ncc == 0 {
+		// Only singular values are computed, by Dlasq1.
+		minwork = 4 * n
+	}
+	if len(work) < minwork {
 		panic(shortWork)
 	}
 
